@@ -797,28 +797,30 @@ theorem writer_detail_progress_invariants (cfg : KV.Writer.Cfg) (s : KV.Writer.S
    KV.WriterCloseDetail.cs_reachable cfg s hr⟩
 
 /-- **writer_detail_close_measure_decreases** — on the detailed Writer model every *closing* event (a step of Close after
-its begin, of a partition writer's goroutine, of the broker, of a call already inside WriteMessages) strictly lowers
-`closeMu` = [Close holds the mutex] + Σ partition writers (sender steps left, queued / pending / open batches, queue still
-open, goroutine not exited) + Σ calls (steps to their return), in every reachable state. -/
+its begin, of a partition writer's goroutine, of the broker, of a call already past `enter()`) strictly lowers
+`closeMu` = [Close holds the mutex] + calls between `enter()` and their identification + Σ partition writers (sender
+steps left, queued / pending / open batches, queue still open, goroutine not exited) + Σ calls (steps to their return),
+in every reachable state — except that a call identifying itself (`begin_`) first brings its own work (`evCost`). -/
 theorem writer_detail_close_measure_decreases (cfg : KV.Writer.Cfg) (hmax : 1 ≤ cfg.maxAttempts) (s s' : KV.Writer.State)
     (hr : KV.Writer.Reachable cfg s) (e : KV.Writer.Event) (hcl : KV.WriterCloseDetail.closing s e = true)
     (hs : KV.Writer.step cfg s e = some s') :
-    KV.WriterCloseDetail.closeMu cfg s' < KV.WriterCloseDetail.closeMu cfg s :=
+    KV.WriterCloseDetail.closeMu cfg s' < KV.WriterCloseDetail.closeMu cfg s + KV.WriterCloseDetail.evCost e :=
   KV.WriterCloseDetail.closing_decreases cfg hmax s s' hr e hcl hs
 
 /-- **writer_detail_close_terminates** — Close terminates on the detailed Writer model in every schedule: from a
-reachable state with the writer closed and no call between `enter()` and its identification, every run of closing
-events has at most `closeMu` steps, and a run that cannot be extended ends in a state in which `closeReturn` is enabled.
-(Outside the closing set: new callers, further Close calls, timers — Close needs none —, and the events that need an
-open writer, which are disabled once `closed`.)  With `writer_detail_close_return_complete` this is the whole Writer
-clause of C09 on the model that C01/C07/C08 replay hook traces through one event at a time. -/
+reachable state with the writer closed, every run of closing events has at most `closeMu` + `runCost` steps (`runCost`:
+the work of the at most `entered` calls that passed `enter()` before Close and identify themselves during the run), and
+a run that cannot be extended ends in a state in which `closeReturn` is enabled.  (Outside the closing set: new callers,
+further Close calls, timers — Close needs none —, and the events that need an open writer, which are disabled once
+`closed`.)  With `writer_detail_close_return_complete` this is the whole Writer clause of C09 on the model that
+C01/C07/C08 replay hook traces through one event at a time. -/
 theorem writer_detail_close_terminates (cfg : KV.Writer.Cfg) (hmax : 1 ≤ cfg.maxAttempts) (s : KV.Writer.State)
-    (hr : KV.Writer.Reachable cfg s) (hc : s.closed = true) (he : s.entered = 0) (es : List KV.Writer.Event)
+    (hr : KV.Writer.Reachable cfg s) (hc : s.closed = true) (es : List KV.Writer.Event)
     (s' : KV.Writer.State) (hrun : KV.WriterCloseDetail.closingRun cfg s es = some s') :
-    es.length ≤ KV.WriterCloseDetail.closeMu cfg s ∧
+    es.length ≤ KV.WriterCloseDetail.closeMu cfg s + KV.WriterCloseDetail.runCost es ∧
     ((∀ e, KV.WriterCloseDetail.closing s' e = true → KV.Writer.step cfg s' e = none) →
       (KV.Writer.step cfg s' .closeReturn).isSome = true) :=
-  KV.WriterCloseDetail.close_terminates_detail cfg hmax s hr hc he es s' hrun
+  KV.WriterCloseDetail.close_terminates_detail cfg hmax s hr hc es s' hrun
 
 /-- not vacuous: a run of the detailed model in which Close begins while a batch is still queued, the batch is then
 sent, its Completion runs, the call returns, the sender exits and Close returns -/
